@@ -76,6 +76,19 @@ def gen_cases(tier):
         c["src"] = src
         c["export"] = True
         cases.append(c)
+    # KROME sources: free-form rate expressions cannot be held by the exchange format (type 999, coefficients 0): the write/read
+    # cycle must still reproduce what was written, and an exported project must be refused at re-rendering, not computed with other rates
+    for i in range(max(2, n // 10)):
+        r = random.Random(rng.getrandbits(64))
+        pts = c05.make_case(r, "kida")["points"]
+        rates = ["1.0d-17*sqrt(Tgas)", "2.3d-9*(T32)**(-0.5)*exp(-1.0d4*invT)", "4.69d-19*(T32)**1.52*exp(50.5*invT)", "3.5d-12*(T32)**(-0.7)", "1.5d-10", "7.0d-8*invT + 2.0d-12"]
+        species = ["H", "H2", "H+", "e-", "C", "O", "CO", "C+", "He", "He+"]
+        reacs = []
+        for j in range(r.randint(3, 8)):
+            tw = r.choice([(-1.0, -1.0), (10.0, 1.0e4), (-1.0, 5.5e3), (300.0, -1.0)])
+            reacs.append({"reactants": [r.choice(species) for _ in range(r.choice([1, 2, 2]))], "products": [r.choice(species) for _ in range(r.choice([1, 2, 3]))],
+                          "idx": j + 1, "tmin": tw[0], "tmax": tw[1], "rate": r.choice(rates), "alpha": 0.0, "beta": 0.0, "gamma": 0.0, "type": 999})
+        cases.append({"format": "krome", "src": "krome", "reactions": reacs, "points": pts, "export": True})
     return cases
 
 
@@ -95,6 +108,11 @@ def build(case, work):
         return Network(rl)
     fmt = case["format"]
     p = work / f"in.{fmt}"
+    if fmt == "krome":
+        cols = ["idx", "R", "R", "P", "P", "P", "Tmin", "Tmax", "rate"]
+        p.write_text("@format:" + ",".join(cols) + "\n" + "\n".join(
+            encode.krome_line_cols(r, cols, "NONE" if r["tmin"] <= 0 else None, "NONE" if r["tmax"] <= 0 else None) for r in case["reactions"]) + "\n")
+        return Network(filelist=str(p), fileformats=fmt)
     p.write_text("\n".join(encode.LINE[fmt](r) for r in case["reactions"]) + "\n")
     kw = {}
     if fmt == "leeds":
